@@ -181,3 +181,7 @@ impl<SupportedVersions: EncoderValue> EncoderValue for VersionNegotiation<'_, Su
         self.supported_versions.encode(encoder);
     }
 }
+
+#[cfg(all(aws_s2n_quic_verif, test))]
+#[path = "/verif/harness/core/packet_version_negotiation.rs"]
+mod verif;
